@@ -16,12 +16,16 @@ fn main() {
         "C04" => run_check(c04::C04, &args),
         "C05" => run_check(c05::C05, &args),
         "C06" => run_check(c06::C06, &args),
+        "C07" => run_check(c07::C07, &args),
+        "C08" => run_check(c08::C08, &args),
+        "C09" => run_check(c09::C09, &args),
         "C11" => run_check(c11::C11, &args),
         "C12" => run_check(c12::C12, &args),
         "C13" => run_check(c13::C13, &args),
         "C14" => run_check(c14::C14, &args),
         "C15" => run_check(c15::C15, &args),
         "C16" => run_check(c16::C16, &args),
+        "C18" => run_check(c18::C18, &args),
         "C19" => run_check(c19::C19, &args),
         "C20" => run_check(c20::C20, &args),
         other => {
